@@ -670,6 +670,9 @@ type objState struct {
 	frozen   int // -1: no flag
 	iter     int // -1: no counter
 	contents []Val
+	hdr      []byte // the bytes of the Go object itself (verif hook), nil if not available
+	froff    int
+	itoff    int
 }
 
 func stateOf(in *graphs.Instance) []objState {
@@ -684,6 +687,12 @@ func stateOf(in *graphs.Instance) []objState {
 			}
 			if n, ok := starlark.VerifIterCount(v); ok {
 				st.iter = int(n)
+			}
+			if b, fo, io, ok := starlark.VerifHeader(v); ok {
+				st.hdr, st.froff, st.itoff = b, fo, io
+			} else if s, ok := v.(*starlarkstruct.Struct); ok {
+				st.hdr, st.froff = starlarkstruct.VerifHeader(s)
+				st.itoff = -1
 			}
 			st.contents = in.Contents(id)
 		}
@@ -717,6 +726,14 @@ func diffStates(a, b []objState) []Write {
 		}
 		if !graphs.EqVals(a[id].contents, b[id].contents) {
 			ws = append(ws, Write{id, 2, fr})
+		} else if fr && a[id].hdr != nil && len(a[id].hdr) == len(b[id].hdr) {
+			// a frozen object: not one byte of the Go object may change
+			for k := range a[id].hdr {
+				if a[id].hdr[k] != b[id].hdr[k] && k != a[id].froff && !(a[id].itoff >= 0 && k >= a[id].itoff && k < a[id].itoff+4) {
+					ws = append(ws, Write{id, 2, fr})
+					break
+				}
+			}
 		}
 	}
 	return ws
@@ -756,6 +773,29 @@ func scenarioFootprints(seed uint64, rounds int) {
 		o := FOut{Kind: "fp", Seed: seed, Round: round, Desc: d, Src: src}
 		probe := graphs.Instantiate(d, src)
 		printable := map[int]bool{}
+		// sequences obtained EARLY: while the module was still running and the value was mutable
+		early := func(seqs map[int]func(func())) func(int, starlark.Value) {
+			return func(id int, v starlark.Value) {
+				switch x := v.(type) {
+				case *starlark.Dict:
+					sq := starlark.Entries(x)
+					seqs[id] = func(body func()) {
+						for range sq {
+							body()
+						}
+					}
+				case starlark.Iterable:
+					if _, isStr := v.(starlark.String); !isStr {
+						sq := starlark.Elements(x)
+						seqs[id] = func(body func()) {
+							for range sq {
+								body()
+							}
+						}
+					}
+				}
+			}
+		}
 		for id := range d.Nodes {
 			printable[id] = true
 		}
@@ -797,6 +837,8 @@ func scenarioFootprints(seed uint64, rounds int) {
 			if container && starlark.Len(probe.Objs[id]) > 0 {
 				// the go1.23 push iterators: state observed INSIDE the range loop, and after it
 				plans = append(plans, []FStep{{Op: "ebegin", Node: id}, {Op: "edone", Node: id}})
+				// ... and the same for a sequence that was obtained before the value was frozen
+				plans = append(plans, []FStep{{Op: "ebegin", Node: id, I: 1}, {Op: "edone", Node: id}})
 			}
 			other := r.Intn(len(d.Nodes))
 			if probe.Objs[other] != nil {
@@ -822,7 +864,8 @@ func scenarioFootprints(seed uint64, rounds int) {
 				plans = append(plans, []FStep{{Op: "mutate", Node: id, M: m}, {Op: "begin", Node: id}, {Op: "mutate", Node: id, M: m}, {Op: "done"}})
 			}
 			for _, plan := range plans {
-				in := graphs.Instantiate(d, src)
+				seqs := map[int]func(func()){}
+				in := graphs.InstantiateWith(d, src, early(seqs))
 				th := &starlark.Thread{Name: "fp"}
 				var its []starlark.Iterator
 				seq := FSeq{}
@@ -830,7 +873,13 @@ func scenarioFootprints(seed uint64, rounds int) {
 					v := in.Objs[plan[0].Node]
 					before := stateOf(in)
 					var mid []objState
-					if d, ok := v.(*starlark.Dict); ok {
+					if sq := seqs[plan[0].Node]; plan[0].I == 1 && sq != nil {
+						sq(func() {
+							if mid == nil {
+								mid = stateOf(in)
+							}
+						})
+					} else if d, ok := v.(*starlark.Dict); ok {
 						for range starlark.Entries(d) {
 							if mid == nil {
 								mid = stateOf(in)
